@@ -49,8 +49,20 @@ class Monitor(object):
         if et == "arrival":
             self.accepted_before = node.number_accepted_individuals
 
-    def started_in_visit(self, ind, node_id, arrival):
-        return any(r.node == node_id and r.arrival_date == arrival and r.record_type == "interrupted service" for r in ind.data_records)
+    def started_in_visit(self, ind, node_id, arrival, before=None):
+        """was a service started (and interrupted in place) during the CURRENT visit?  Only the records after the last
+        record that ended a visit count: a customer re-routed away and back within one instant has several visits with the
+        same node and arrival date."""
+        recs = ind.data_records
+        if before is not None:
+            recs = recs[:recs.index(before)]
+        for r in reversed(recs):
+            in_place = r.record_type == "interrupted service" and isinstance(r.destination, float) and r.destination != r.destination
+            if not in_place:
+                return False          # a service / renege / re-routing record: the visit before it is over
+            if r.node == node_id and r.arrival_date == arrival:
+                return True
+        return False
 
     def on_boundary(self, Q):
         now = Q.current_time
@@ -81,7 +93,7 @@ class Monitor(object):
                 elif r.exit_date != r.arrival_date + pat:
                     self.violate("renege_not_at_arrival_plus_patience", {"id": r.id_number, "node": r.node, "arrival": r.arrival_date,
                                                                          "patience": pat, "reneged_at": r.exit_date})
-                if self.started_in_visit(ind, r.node, r.arrival_date):
+                if self.started_in_visit(ind, r.node, r.arrival_date, before=r):
                     self.violate("reneged_after_service_started", {"id": r.id_number, "node": r.node})
                 tgt = self.jockey.get((r.id_number, r.exit_date), -1)
                 loc = [h.id_number for h, i in self.hub.all_customers() if i is ind]
